@@ -297,3 +297,46 @@ func ReportMaskWord(w *World, r *Report, names ...string) {
 		r.Check(bad == "", "R-MASKWORD", n, w.Pos(fn.Pos()), bad, fmt.Sprintf("%d offset masks applied to directly loaded words, each to the word of its position", nsite))
 	}
 }
+
+// ReportGrowZero: growing a word container appends zero words only. The bits of a bitmap are written by the
+// single-bit store at the word index of the position; an append that carries data puts that data at index
+// len(Words), which is the word of the position only when exactly one word is missing.
+func ReportGrowZero(w *World, r *Report, field string, names ...string) {
+	r.Rule("R-GROWZERO", "every append to the word container appends the constant 0 (or a freshly made zero slice): growth only makes room, the bit itself is written at the word index of its position; an append that carries the bit stores it at index len(Words), the wrong word whenever more than one word is missing")
+	for _, n := range names {
+		fn := findFunc(w, n)
+		if fn == nil || fn.Blocks == nil {
+			continue
+		}
+		bad := ""
+		napp := 0
+		eachInstr(fn, func(ins ssa.Instruction) {
+			call, ok := ins.(*ssa.Call)
+			if !ok {
+				return
+			}
+			b, ok := call.Common().Value.(*ssa.Builtin)
+			if !ok || b.Name() != "append" || len(call.Common().Args) < 2 {
+				return
+			}
+			if _, f, ok := asFieldLoad(call.Common().Args[0]); !ok || f != field {
+				return
+			}
+			napp++
+			if _, isMake := call.Common().Args[1].(*ssa.MakeSlice); isMake {
+				return
+			}
+			vals := appendedValues(call)
+			if len(vals) == 0 {
+				bad = fmt.Sprintf("what is appended to %s at %s cannot be identified", field, w.InstrPos(ins))
+				return
+			}
+			for _, v := range vals {
+				if k, ok := constUint64(stripConv(v)); !ok || k != 0 {
+					bad = fmt.Sprintf("a non-zero word (%s) is appended to %s at %s: the bit lands in word len(%s), not in the word of its position", fmtVal(w, v), field, w.InstrPos(ins), field)
+				}
+			}
+		})
+		r.Check(bad == "", "R-GROWZERO", n, w.Pos(fn.Pos()), bad, fmt.Sprintf("%d appends to %s, all of zero words", napp, field))
+	}
+}
